@@ -90,6 +90,15 @@ def labelled_events(prog):
                 break
     msinks = {M + "tracker_visit_expr": ("eval", 0), M + "tracker_visit_expr_opt": ("eval", 0), M + "track_walk": ("eval", 0),
               M + "track_assign": ("assign", 0), M + "tracker_visit_callarg": ("eval", 0), M + "tracker_visit_macro": ("eval", 0)}
+    # the same on the tracker's side: a helper of the walk that takes statements (`track_walk_scoped(body, state)`)
+    for k, f in prog.fns.items():
+        if not k.startswith(M) or f.kind == "closure" or k in msinks:
+            continue
+        for l in range(1, f.argc + 1):
+            t = f.locals[l].get("s", "")
+            if "ast::Stmt" in t and ("[" in t or t.startswith("&")):
+                msinks[k] = ("eval", l - 1)
+                break
     return (list(events.collect(prog, lab, cg, csinks)), list(events.collect(prog, lab, mt, msinks)), csinks, msinks)
 
 
@@ -97,7 +106,11 @@ def check_statement_lists_walked(ctx, prog, tag, rule, ce, me):
     """every statement list the code generator compiles is walked, under its own label, by the tracker (which also
     decides what macros enclose): a list walked only as the tail of another one is walked in the wrong scope"""
     n = 0
-    have = {(m.T, m.field[:1]) for m in me if m.kind == "eval" and (m.sink or "").endswith("::track_walk")}
+    def walks_statements(name):
+        g = prog.fns.get(name or "")
+        return (name or "").endswith("::track_walk") or (g is not None and name.startswith(M) and any(
+            "ast::Stmt" in g.locals[l].get("s", "") for l in range(1, g.argc + 1)))
+    have = {(m.T, m.field[:1]) for m in me if m.kind == "eval" and walks_statements(m.sink)}
     seen = set()
     for e in ce:
         if e.kind != "eval" or not e.field or not _is_stmt_sink(prog, e.sink):
